@@ -353,6 +353,28 @@ fn c13_case(ctx: &mut Ctx, rng: &mut Rng, i: u64) {
     if !parent_extra.is_empty() {
         ctx.violation("C13/parent-holds-interstage-pipe", "after Pipeline::popen() the parent still holds an end of a pipe between two commands: the commands are not connected to each other and nothing else", w(J::arr_s(&parent_extra)));
     }
+    // "connected to each other and nothing else": a command of the pipeline holds no descriptor above 2 on any pipe the
+    // library created for this pipeline (its own three streams are all it has of them)
+    {
+        let lib: std::collections::BTreeSet<u64> = spawn::lib_pipes(&evs).iter().map(|p| p.ino).collect();
+        let mut foreign: Vec<String> = vec![];
+        for j in 0..n {
+            for l in crate::kid::read_lines(&dir.join(format!("stage{}.rep", j))) {
+                if let Some(rest) = l.strip_prefix("xfd ") {
+                    let parts: Vec<&str> = rest.split(' ').collect();
+                    if let Some(ino) = parts.get(1).and_then(|t| crate::inspect::pipe_ino(t)) {
+                        if lib.contains(&ino) {
+                            foreign.push(format!("command {} holds fd {} -> {} ({})", j, parts[0], parts[1], if parts.get(2) == Some(&"0") { "read end" } else { "write end" }));
+                        }
+                    }
+                }
+            }
+        }
+        ctx.count("commands_audited_for_foreign_pipe_ends", n as i64);
+        if !foreign.is_empty() {
+            ctx.violation("C13/command-holds-another-pipe-of-the-pipeline", "a command of the pipeline holds, besides its own three streams, a descriptor of a pipe the library created for the pipeline", w(J::arr_s(&foreign)));
+        }
+    }
     ctx.count(if early { "pipelines_with_early_exiting_consumer" } else { "pipelines_reading_everything" }, 1);
     if let Some(c) = &m.cert {
         ctx.violation(&format!("C13/hang/{}{}", term, if early { "/early-exiting-consumer" } else { "" }), "the pipeline deadlocked", w(run::cert_json(c)));
